@@ -366,6 +366,19 @@ def gs_enabled(m: GM) -> List[Tuple]:
     return ev
 
 
+def gs_enabled_small(m: GM) -> List[Tuple]:
+    """colour-space / save-restore core of the alphabet, searched one level deeper"""
+    ev = [("q",)]
+    if m.stack:
+        ev.append(("Q",))
+    ev += [("cs", "/DeviceRGB"), ("cs", "/DeviceCMYK"), ("cs", "/DeviceGray"), ("CS", "/DeviceRGB"), ("CS", "/CS0"),
+           ("g", Fr(1, 2)), ("RG", 0, Fr(1, 2), 1), ("w", 2), ("d", (3, 1), 0), ("cm", 1, 0, 0, 1, 16, 24)]
+    ev += [e for e in colour_events(m) if e[0] in ("sc", "SC")]
+    return ev
+
+
+GS_FAMILIES = {"all": gs_enabled, "core": gs_enabled_small}
+
 PROBE = (("re", 8, 16, 16, 32), ("B",), ("m", 40, 16), ("l", 56, 24), ("S",))
 
 # ------------------------------------------------------------------ alphabet: path objects
@@ -420,19 +433,22 @@ def gen_paths(maxlen: int, curves: bool) -> Iterator[Tuple[Tuple, ...]]:
 PATH_ILL = [("l", 8), ("l", b"x", 16), ("re", 8, 16, 16), ("c", 1, 2, 3, 4, 5), ("v", "/N", 2, 3, 4)]
 
 BOUNDS = {
-    "quick": {"gs_depth": 4, "gs_shard_depth": 2, "path_len_curves": 4, "path_len_lines": 5, "ill_len": 3, "batch": 24},
-    "thorough": {"gs_depth": 5, "gs_shard_depth": 2, "path_len_curves": 5, "path_len_lines": 6, "ill_len": 4, "batch": 24},
+    "quick": {"gs_depth": {"all": 3, "core": 4}, "gs_shard_depth": {"all": 1, "core": 2}, "path_len_curves": 4, "path_len_lines": 5,
+              "ill_len": 3, "batch": 24, "lines_ends": ["S", "b", "f*", "n"], "lines_ctm_ends": ["b*"]},
+    "thorough": {"gs_depth": {"all": 4, "core": 5}, "gs_shard_depth": {"all": 2, "core": 2}, "path_len_curves": 5, "path_len_lines": 6,
+                 "ill_len": 4, "batch": 24, "lines_ends": list(PAINT) + ["n"], "lines_ctm_ends": ["S", "b*"]},
 }
 
 META = {
     "rule": (
-        "family gs: breadth-first search over graphics-state operator histories (w x2, d x2, g G rg RG k K, cs/CS x5 spaces incl. ICCBased N=3 and "
-        "Pattern, sc scn SC SCN with the operand count of the current space, q Q, cm x2, 8 ill-formed instances) to gs_depth; state = (canonical real "
+        "family gs: breadth-first search over graphics-state operator histories ('all': w x2, d x2, g G rg RG k K, cs/CS x5 spaces incl. ICCBased N=3 and "
+        "Pattern, sc scn SC SCN with the operand count of the current space, q Q, cm x2, 8 ill-formed instances; 'core': q Q cs x3 CS x2 sc SC g RG w d cm, "
+        "one level deeper) to gs_depth; state = (canonical real "
         "interpreter state, model state), deduplicated; after every transition the probe 're B m l S' is painted and both shapes are compared in every "
         "attribute (class, pts, bbox, original_path, stroke/fill/evenodd, linewidth, dashing_style, stroking/non-stroking colour). "
         "family path: every path object over m l c v y h re (6 end points, pairwise distinct; 2 rectangles; curves to the next free point) of at most "
-        "path_len_curves operators, and over m l h re only of at most path_len_lines, x every end operator (S s f f* B B* b b* n) under the identity "
-        "CTM and x {S, b*} under 6 further CTMs (translate, scale, rot90, rot45, shear, mirror); objects run back to back (batch) so each is also "
+        "path_len_curves operators x every end operator (S s f f* B B* b b* n) under the identity CTM and x {S, b*} under 6 further CTMs (translate, "
+        "scale, rot90, rot45, shear, mirror), and over m l h re only of at most path_len_lines x lines_ends / lines_ctm_ends; objects run back to back (batch) so each is also "
         "followed by another object; family ill: path objects up to ill_len with one ill-formed construction operator inserted at every position "
         "after the first segment. A case = one path object x end operator x CTM, or one gs history + probe; non-trivial = at least one shape expected. "
         "states = gs states + nodes of the path-construction tree, transitions = operator applications, traces = programs compared with the model."
@@ -489,7 +505,7 @@ class Checker:
         return (gfx.canon_interp(it, dev) if exc is None else ("exc", gfx.exc_sig(exc))), bad
 
 
-def gs_search(st, tier, prefix=(), max_depth=None, collect=False):
+def gs_search(st, tier, fam, prefix=(), max_depth=None, collect=False):
     b = BOUNDS[tier]
     ck = Checker(st)
     model = run_model(prefix)
@@ -506,19 +522,20 @@ def gs_search(st, tier, prefix=(), max_depth=None, collect=False):
     for p in PROBE:
         mp = mp.apply(p)
     real0, _ = ck.judge(tuple(prefix) + PROBE, mp, "root+probe")
-    res = gfx.explore(tuple(prefix), model, gs_enabled, step, b["gs_depth"] if max_depth is None else max_depth, None,
+    res = gfx.explore(tuple(prefix), model, GS_FAMILIES[fam], step, b["gs_depth"][fam] if max_depth is None else max_depth, None,
                       start_depth=len(prefix), collect_frontier=collect, root_key=(real0, model.key()))
     return res, ck
 
 
 def path_jobs(tier) -> List[Tuple]:
     """(family, ctm index, end operator) -- one shard each"""
+    b = BOUNDS[tier]
     jobs = []
     for fam in ("curves", "lines"):
-        for e in END_OPS:
+        for e in (END_OPS if fam == "curves" else b["lines_ends"]):
             jobs.append(("path", fam, 0, e))
         for c in range(1, len(CTMS)):
-            for e in ("S", "b*"):
+            for e in (("S", "b*") if fam == "curves" else b["lines_ctm_ends"]):
                 jobs.append(("path", fam, c, e))
     return jobs
 
@@ -589,10 +606,12 @@ def shards(tier):
     from mc.core import Stats
 
     b = BOUNDS[tier]
-    out: List[Tuple] = [("gs-pre",)]
-    res, _ = gs_search(Stats(), tier, max_depth=b["gs_shard_depth"], collect=True)
-    for node in res["frontier"]:
-        out.append(("gs-sub", node.hist))
+    out: List[Tuple] = []
+    for fam in GS_FAMILIES:
+        out.append(("gs-pre", fam))
+        res, _ = gs_search(Stats(), tier, fam, max_depth=b["gs_shard_depth"][fam], collect=True)
+        for node in res["frontier"]:
+            out.append(("gs-sub", fam, node.hist))
     out += path_jobs(tier)
     out.append(("ill",))
     return out
@@ -602,13 +621,13 @@ def run_shard(shard, tier, st):
     b = BOUNDS[tier]
     kind = shard[0]
     if kind == "gs-pre":
-        res, ck = gs_search(st, tier, max_depth=b["gs_shard_depth"], collect=True)
+        res, ck = gs_search(st, tier, shard[1], max_depth=b["gs_shard_depth"][shard[1]], collect=True)
         st.states += res["states"] + 1
         st.transitions += res["transitions"]
-        st.sample({"family": "gs", "program": gfx.program((("q",), ("cs", "/DeviceRGB"), ("Q",), ("sc", Fr(3, 4))) + PROBE)})
+        st.sample({"family": "gs-" + shard[1], "program": gfx.program((("q",), ("cs", "/DeviceRGB"), ("Q",), ("sc", Fr(3, 4))) + PROBE)})
     elif kind == "gs-sub":
-        prefix = tuple(gfx.ev_from_json(e) for e in shard[1])
-        res, ck = gs_search(st, tier, prefix=prefix)
+        prefix = tuple(gfx.ev_from_json(e) for e in shard[2])
+        res, ck = gs_search(st, tier, shard[1], prefix=prefix)
         st.states += res["states"]
         st.transitions += res["transitions"]
     elif kind == "path":
